@@ -1,29 +1,42 @@
 import OntVerif.Model.KV
-/-! Line driver for C03: `H op;op;…` with ops `p:<key>:<val>`, `d:<key>`, `r` on the write set of a fresh overlay. -/
+/-! Line driver for C03: `H op;op;…` on a fresh `OverlayDB` over a store: `s:<key>:<val>` store.Put (pre-population),
+`p:<key>:<val>` / `d:<key>` / `r` = OverlayDB.Put / Delete / Reset. Output: write-set dump, Len, Size, MemDB.Get probes,
+OverlayDB.Get probes. -/
 namespace OntVerif.Driver.C03
 open OntVerif.Util OntVerif.Model.KV
 
-def parseOp (s : String) : Option Op :=
+inductive Line | store (k : Key) (v : Val) | op (o : Op)
+
+def parseOp (s : String) : Option Line :=
   match s.splitOn ":" with
+  | ["s", k, v] => do
+    let k ← unhex k
+    let v ← unhex v
+    some (.store k v)
   | ["p", k, v] => do
     let k ← unhex k
     let v ← unhex v
-    some (.put k v)
-  | ["d", k] => (unhex k).map .del
-  | ["r"] => some .reset
+    some (.op (.put k v))
+  | ["d", k] => (unhex k).map fun k => .op (.del k)
+  | ["r"] => some (.op .reset)
   | _ => none
 
 def showKVs (l : List KV) : String :=
   if l.isEmpty then "-" else String.intercalate "," (l.map fun e => s!"{hexW e.1}={hexW e.2}")
 
-def opKey : Op → Option Key
-  | .put k _ => some k
-  | .del k => some k
-  | .reset => none
+def lineKey : Line → Option Key
+  | .store k _ => some k
+  | .op (.put k _) => some k
+  | .op (.del k) => some k
+  | .op .reset => none
 
 def showGet : Option Val → String
   | none => "?"
   | some v => hexW v
+
+def stepLine (o : Overlay) : Line → Overlay
+  | .store k v => { o with store := Store.put o.store k v }
+  | .op x => o.step x
 
 def handle (line : String) : String :=
   match fields line with
@@ -31,10 +44,12 @@ def handle (line : String) : String :=
     match (ops.splitOn ";").mapM parseOp with
     | none => "bad-op"
     | some os =>
-      let m := run os
-      let probes := os.filterMap opKey ++ [[], [0], [255]]
+      let o := os.foldl stepLine ⟨[], []⟩
+      let m := o.mem
+      let probes := os.filterMap lineKey ++ [[], [0], [255]]
       let gets := String.intercalate "," (probes.map fun k => s!"{hexW k}={showGet (m.get k)}")
-      s!"{showKVs m} n={m.length} sz={m.size} g={gets}"
+      let ogets := String.intercalate "," (probes.map fun k => s!"{hexW k}={hexW (o.get k)}")
+      s!"{showKVs m} n={m.length} sz={m.size} g={gets} og={ogets}"
   | _ => "bad-op"
 
 end OntVerif.Driver.C03
